@@ -48,16 +48,20 @@ let run_sched alap =
   let bs = List.sort compare (List.map (fun b -> (int_of_nat b.b_task, int_of_nat b.b_res, int_of_nat b.b_slot)) booked) in
   String.concat " " rs ^ " | " ^ String.concat ";" (List.map (fun (t, r, s) -> Printf.sprintf "%d,%d,%d" t r s) bs)
 (* sub-slot scheduler (Model/SubSlot.v):
-   sd upper G nres [nwork flags.. eff_num eff_den].. ntasks [leaf nleaves leaves.. prio mile effort_num effort_den res
-      ndeps [task onstart gap].. pin(-1 none) lb]..
+   sd upper start G nres [nwork flags.. eff_num eff_den nlims lims..].. nlimits [value period only]..
+      ntasks [leaf nleaves leaves.. prio mile effort_num effort_den res ndeps [task onstart gap].. pin(-1 none) lb nlims lims..]..
    answer: per task "s:e" (seconds) or "-" | ledger entries t,r,slot,seconds *)
 let run_sd () =
   let upper = geti () in
+  let start = z_of_int (geti ()) in
   let g = geti () in
   let res = getlist (fun () ->
       let w = Array.of_list (getlist (fun () -> geti () <> 0)) in
       let en = geti () in let ed = geti () in
-      { sr_work = (fun s -> let i = int_of_nat s in i < Array.length w && w.(i)); sr_eff = q_of en ed }) in
+      let l = getlist getn in
+      { sr_work = (fun s -> let i = int_of_nat s in i < Array.length w && w.(i)); sr_eff = q_of en ed; sr_limits = l }) in
+  let lims = getlist (fun () -> let v = getn () in let per = z_of_int (geti ()) in let o = geti () in
+                        mk_slimit v start (z_of_int g) per (if o < 0 then None else Some (nat_of_int o))) in
   let tasks = getlist (fun () ->
       let leaf = geti () <> 0 in let leaves = getlist getn in
       let prio = z_of_int (geti ()) in let mile = geti () <> 0 in
@@ -65,9 +69,10 @@ let run_sd () =
       let deps = getlist (fun () -> let t = getn () in let o = geti () <> 0 in let gp = z_of_int (geti ()) in
                            { sd_task = t; sd_onstart = o; sd_gap = gp }) in
       let pin = geti () in let lb = z_of_int (geti ()) in
+      let tl = getlist getn in
       { s_leaf = leaf; s_leaves = leaves; s_prio = prio; s_mile = mile; s_effort = q_of en ed; s_res = r; s_deps = deps;
-        s_pin = (if pin < 0 then None else Some (z_of_int pin)); s_lb = lb }) in
-  let p = { sp_tasks = tasks; sp_res = res; sp_upper = nat_of_int upper; sp_G = z_of_int g } in
+        s_pin = (if pin < 0 then None else Some (z_of_int pin)); s_lb = lb; s_limits = tl }) in
+  let p = { sp_tasks = tasks; sp_res = res; sp_limits = lims; sp_upper = nat_of_int upper; sp_G = z_of_int g } in
   let (st, results) = sall_results p in
   let rs = List.map (fun d -> match d with
       | Some (s, e) -> Printf.sprintf "%d:%d" (int_of_z s) (int_of_z e) | None -> "-") results in
@@ -84,7 +89,7 @@ let run_sdt () =
   let res = getlist (fun () ->
       let w = Array.of_list (getlist (fun () -> geti () <> 0)) in
       let en = geti () in let ed = geti () in
-      { sr_work = (fun s -> let i = int_of_nat s in i < Array.length w && w.(i)); sr_eff = q_of en ed }) in
+      { sr_work = (fun s -> let i = int_of_nat s in i < Array.length w && w.(i)); sr_eff = q_of en ed; sr_limits = [] }) in
   let tasks = getlist (fun () ->
       let leaf = geti () <> 0 in let leaves = getlist getn in
       let prio = z_of_int (geti ()) in let mile = geti () <> 0 in
